@@ -134,8 +134,9 @@ def judge(prop_ids, cases, results, verdicts, stats, samples):
         c = by_id.get(b["case"], {})
         call = (c.get("calls") or [{}])[0]
         meta = c.get("meta", {})
+        max_init = max([4] + [n["id"] for n in c.get("tree", []) if n["id"] < 1000])
         sig = dict(check="race-sweep", what=b["what"], op=call.get("op"), path=call.get("path"), nr=b["nr"], backend="kernel" if c.get("feat", {}).get("openat2", True) else "emulated",
-                   tree=meta.get("tree"))
+                   tree=meta.get("tree"), parent_preexisting=bool(b["d1"] <= max_init), attacked=bool(meta.get("acts")), ks=meta.get("ks"), acts=meta.get("acts"))
         desc = "%s: %s(%r) [%s backend], attacker %s at boundaries %s: %s (syscall %s on dir inode %s name %r)" % (
             b["prop"], call.get("op"), call.get("path"), sig["backend"], json.dumps(meta.get("acts")), meta.get("ks"), b["what"], b["nr"], b["d1"], b["n1"])
         verdicts[b["prop"]].violation(sig, desc, c)
